@@ -414,6 +414,7 @@ def flows_from_calls(g: CFG, n: Node, e: ast.AST, calls, depth: int = 3) -> bool
 
 _ORDER_KEEP = {"list", "tuple", "dict", "iter"}
 _ORDER_BREAK = {"sorted", "set", "frozenset", "reversed", "shuffle"}
+_ORDER_MAP_METHODS = {"info"}
 
 
 def order_source(g: CFG, n: Node, e: ast.AST, fn_has_param, depth: int = 24) -> Set[str]:
@@ -428,7 +429,11 @@ def order_source(g: CFG, n: Node, e: ast.AST, fn_has_param, depth: int = 24) -> 
             return {f"param:{e.id}"} if fn_has_param(e.id) else {f"free:{e.id}"}
         out: Set[str] = set()
         for d in defs:
-            if d.kind == "for" or d.kind == "with":
+            if d.kind == "for":
+                # an element of the enclosing loop: one fixed sequence per iteration
+                out.add(f"loopvar:{e.id}@{d.id}")
+                continue
+            if d.kind == "with":
                 out.add(f"unknown:{d.text()[:50]}")
                 continue
             v = getattr(d.ast, "value", None)
@@ -470,6 +475,9 @@ def order_source(g: CFG, n: Node, e: ast.AST, fn_has_param, depth: int = 24) -> 
             return {f"reordered:{ast.unparse(e)[:60]}"}
         if isinstance(f, ast.Attribute) and f.attr in ("items", "keys", "values", "copy") and not e.args:
             return order_source(g, n, f.value, fn_has_param, depth - 1)
+        if isinstance(f, ast.Attribute) and f.attr in _ORDER_MAP_METHODS and e.args:
+            # batch call answering element-wise, in the order of its (list) argument: fs.info([p1, p2, ...])
+            return order_source(g, n, e.args[0], fn_has_param, depth - 1)
         return {f"call:{ast.unparse(e)[:80]}"}
     if isinstance(e, (ast.ListComp, ast.GeneratorExp, ast.DictComp, ast.SetComp)):
         if isinstance(e, ast.SetComp):
@@ -637,3 +645,56 @@ def with_flags(g: CFG, justified: EdgePred, start: Optional[int] = None) -> Edge
         return False
 
     return pred
+
+
+class ResultSite:
+    """One way a function produces its result: `value` computed at `node` and handed out by `ret`
+    (node is ret for a plain `return E`; for `x = E ... return x` node is the assignment and var is x)."""
+
+    def __init__(self, node: Node, value: ast.AST, ret: Node, var: Optional[str]):
+        self.node, self.value, self.ret, self.var = node, value, ret, var
+
+
+def result_sites(g: CFG, depth: int = 2) -> List[ResultSite]:
+    out: List[ResultSite] = []
+    seen = set()
+
+    def add(n: Node, v: ast.AST, ret: Node, var: Optional[str], d: int):
+        if isinstance(v, ast.Name) and d > 0:
+            defs = reaching_defs(g, n.id, v.id)
+            if defs and all(x.kind == "stmt" and isinstance(x.ast, (ast.Assign, ast.AnnAssign)) and getattr(x.ast, "value", None) is not None
+                            and (isinstance(x.ast, ast.AnnAssign) or (len(x.ast.targets) == 1 and isinstance(x.ast.targets[0], ast.Name))) for x in defs):
+                for x in defs:
+                    if isinstance(x.ast.value, ast.Name) and d > 1:
+                        add(x, x.ast.value, ret, v.id, d - 1)
+                    elif (x.id, ret.id) not in seen:
+                        seen.add((x.id, ret.id))
+                        out.append(ResultSite(x, x.ast.value, ret, v.id))
+                return
+        if (n.id, ret.id) not in seen:
+            seen.add((n.id, ret.id))
+            out.append(ResultSite(n, v, ret, var))
+
+    for n in g.nodes.values():
+        if n.kind == "stmt" and isinstance(n.ast, ast.Return) and n.ast.value is not None:
+            add(n, n.ast.value, n, None, depth)
+    return out
+
+
+def cut_result(g: CFG, site: ResultSite, justified: EdgePred, start: Optional[int] = None):
+    """CUT for a result site: is there a way to compute the value at site.node and hand it out at site.ret
+    (without the variable being overwritten in between) that crosses no justified edge?  None if not."""
+    if site.node.id == site.ret.id:
+        return cut(g, [site.ret.id], justified, start=start)
+    lifted = with_flags(g, justified, start=start)
+
+    def skip_edge(n, lab, d):
+        return n.kind in ("test", "for") and lab in ("T", "F") and lifted(n, lab)
+
+    first = g.reach([g.entry if start is None else start], skip_edge=skip_edge)
+    if site.node.id not in first:
+        return None
+    second = g.reach([site.node.id], skip_node=lambda x: x.id != site.node.id and site.var is not None and node_defines(x, site.var), skip_edge=skip_edge)
+    if site.ret.id not in second:
+        return None
+    return (g.path_to(first, site.node.id) or []) + (g.path_to(second, site.ret.id) or [])[1:]
